@@ -36,6 +36,10 @@ pub struct DiskState {
     pub ops: u64,
     pub fail_at: Option<u64>,
     pub yield_mode: bool,
+    /// Number of preemption points taken in `yield_mode` (a storage operation that returned
+    /// `Pending` once before being performed); the scheduler uses `ops` and `yields` to tell a
+    /// task that is inside the storage layer from one that waits for the lock of the core.
+    pub yields: u64,
     /// Safety limit for the size of one file (a write/truncate beyond it fails with an IO error
     /// instead of exhausting memory).
     pub max_len: u64,
@@ -71,6 +75,7 @@ impl DiskState {
             ops: 0,
             fail_at: None,
             yield_mode: false,
+            yields: 0,
             max_len: max_len_from_env(),
         }
     }
@@ -214,7 +219,11 @@ impl VecStore {
 
     fn preempt(&self) -> YieldOnce {
         // YieldOnce(true) completes immediately.
-        YieldOnce(!lock(&self.disk).yield_mode)
+        let mut st = lock(&self.disk);
+        if st.yield_mode {
+            st.yields += 1;
+        }
+        YieldOnce(!st.yield_mode)
     }
 }
 
